@@ -101,15 +101,21 @@ Definition run_outboard (a : list N) : list N :=
     | (Err k, ob, _) => ob_obs (1 + kcode k) (Some ob)
     | (Panic, _, _) => [PANIC]
     end
-  else
+  else if entry =? 14 then
     let ob0 := mkOb3 PostIO AA_hash t (stale t) in
-    match init_from_fsm B3 ob0 data with Ok ob => ob_obs 0 (Some ob) | Err k => ob_obs (1 + kcode k) (Some ob0) | Panic => [PANIC] end.
+    match init_from_fsm B3 ob0 data with Ok ob => ob_obs 0 (Some ob) | Err k => ob_obs (1 + kcode k) (Some ob0) | Panic => [PANIC] end
+  else if entry =? 15 then of_res (create_sized B3 PreIO data size bs)      (* second create() on the same handle *)
+  else if entry =? 16 then of_res (create_sized B3 PostIO data size bs)     (* create() on a handle not at position 0 *)
+  else if entry =? 17 then of_res (create_sized B3 PreIO (data ++ repeat 90%uint63 3000) size bs)   (* longer source *)
+  else
+    let ob0 := mkOb3 PostIO AA_hash t (firstn (N.to_nat (outboard_size t)) (stale t)) in
+    match init_from B3 ob0 (data ++ repeat 90%uint63 3000) with Ok ob => ob_obs 0 (Some ob) | Err k => ob_obs (1 + kcode k) (Some ob0) | Panic => [PANIC] end.
 
 (* C03 over the observation: root = BLAKE3 tree hash, stored bytes = spec outboard, size formula *)
 Definition holds_outboard (a o : list N) : bool :=
   let data := blob a in
   let bs := arg a 3 in let entry := arg a 4 in
-  let post := existsb (N.eqb entry) [1; 3; 4; 6; 7; 9; 11; 12; 14] in
+  let post := existsb (N.eqb entry) [1; 3; 4; 6; 7; 9; 11; 12; 14; 16; 18] in
   let is_stale := existsb (N.eqb entry) [8; 9; 14] in
   let spec := spec_outboard B3 post data bs in
   let nb := sp_blocks (blen B3 data) bs in
@@ -135,6 +141,7 @@ Fixpoint apply_cor (n : nat) (l : list N) (data obd : bytes) : bytes * bytes * l
         if w =? 0 then apply_cor k rest (xor_at data pos delta) obd
         else if w =? 1 then apply_cor k rest data (xor_at obd pos delta)
         else if w =? 2 then apply_cor k rest (zero_from data pos) obd
+        else if w =? 4 then apply_cor k rest (firstn (N.to_nat pos) data) obd
         else apply_cor k rest data (zero_from obd pos)
     | _ => (data, obd, [])
     end
@@ -537,6 +544,8 @@ Fixpoint val_rec (fuel : nat) (with_data : bool) (k : ob_kind) (size bs : N) (da
       else []
   end.
 
+Fixpoint is_prefix_n (p l : list N) : bool :=
+  match p, l with [], _ => true | x :: p', y :: l' => (x =? y) && is_prefix_n p' l' | _, _ => false end.
 Definition holds_validate (a o : list N) : bool :=
   let '(data, ob, q, data0) := encode_setup a in
   let size := blen B3 data0 in
@@ -552,7 +561,20 @@ Definition holds_validate (a o : list N) : bool :=
       else [(0, chunks size)]
     else val_rec 70 with_data k size bs data (ob_data ob) (sel q size) 0 nb (ob_root ob) true in
   match o with
-  | rc :: n :: rest => (rc =? 0) && list_eqb rest (flat_map (fun p => [fst p; snd p]) expected) && (n =? N.of_nat (length expected))
+  | rc :: n :: rest =>
+      if blen B3 data <? size then
+        (* partially filled data file: the run may end with UnexpectedEof; what is reported before must be groups that are
+           verifiably stored: a prefix of the groups expected for the zero-padded file, each lying inside the stored bytes *)
+        let padded := data ++ repeat 0%uint63 (N.to_nat (size - blen B3 data)) in
+        let exp_p :=
+          if nb =? 1 then []
+          else val_rec 70 with_data k size bs padded (ob_data ob) (sel q size) 0 nb (ob_root ob) true in
+        let flat_exp := flat_map (fun p => [fst p; snd p]) exp_p in
+        ((rc =? 0) || (rc =? 1 + kcode KUnexpectedEof)) &&
+        is_prefix_n rest flat_exp &&
+        (if with_data then forallb (fun p => N.min (snd p * 1024) size <=? blen B3 data) (firstn (N.to_nat n) exp_p) else true)
+      else
+      (rc =? 0) && list_eqb rest (flat_map (fun p => [fst p; snd p]) expected) && (n =? N.of_nat (length expected))
   | _ => false
   end.
 
@@ -565,7 +587,7 @@ Definition run_agree_dec (a : list N) : list N :=
   flat_map (fun d => let r := run_decode (set_nth a 5 d) in N.of_nat (length r) :: r) [0; 1; 2; 3].
 Definition pad7 (l : list N) : list N := match l with [x] => [x; 0; 0; 0; 0; 0; 0] | _ => l end.
 Definition run_agree_ob (a : list N) : list N :=
-  flat_map (fun e => pad7 (run_outboard (a ++ [e]))) [0; 1; 2; 3; 4; 5; 6; 7; 8; 9; 10; 11; 12; 13; 14].
+  flat_map (fun e => pad7 (run_outboard (a ++ [e]))) [0; 1; 2; 3; 4; 5; 6; 7; 8; 9; 10; 11; 12; 13; 14; 15; 16; 17; 18].
 
 Fixpoint chunks_of (n : nat) (l : list N) (fuel : nat) : list (list N) :=
   match fuel with
@@ -609,10 +631,10 @@ Definition holds_agree_dec (a o : list N) : bool :=
   end.
 (* byte-identical outboards and roots: all pre-order creation paths agree, all post-order ones agree *)
 Definition holds_agree_ob (a o : list N) : bool :=
-  match chunks_of 7 o 16 with
-  | [e0; e1; e2; e3; e4; e5; e6; e7; e8; e9; e10; e11; e12; e13; e14] =>
+  match chunks_of 7 o 20 with
+  | [e0; e1; e2; e3; e4; e5; e6; e7; e8; e9; e10; e11; e12; e13; e14; e15; e16; e17; e18] =>
       negb (existsb (fun x => x =? PANIC) o) &&
-      all_equal [e0; e2; e5; e10; e13] && all_equal [e1; e3; e4; e6; e7; e11; e12] &&
+      all_equal [e0; e2; e5; e10; e13; e15; e17] && all_equal [e1; e3; e4; e6; e7; e11; e12; e16; e18] &&
       all_equal (map (fun e => firstn 2 e) [e0; e1; e8; e9; e14]) && list_eqb e9 e14
   | _ => false
   end.
@@ -636,7 +658,8 @@ Definition hist_step_run (data : bytes) (bs driver : N) (st : bytes * outboard B
   let '(q, ck, cp) := op in
   let full := flat B3 (honest B3 data bs q) in
   let stream := if ck =? 1 then firstn (N.to_nat cp) full else full in
-  let sf := mkSF (if ck =? 2 then Some cp else None) (if ck =? 3 then Some cp else None) KOther in
+  let sf := mkSF (if ck =? 2 then Some cp else None) (if (ck =? 3) || (ck =? 4) then Some cp else None)
+                 (if ck =? 4 then KInvalidInput else KOther) in
   let '(r, target', ob') :=
     if driver =? 2 then let '(r, t', o', _) := decode_ranges_f B3 sf stream q target ob in (r, t', o')
     else let '(r, t', o', _) := decode_ranges_fsm_f B3 sf stream q target ob in (r, t', o') in
@@ -645,11 +668,12 @@ Definition hist_step_run (data : bytes) (bs driver : N) (st : bytes * outboard B
   ((target', ob'),
    rc ++ [dg target'; dg (ob_data ob'); io_rc vr; N.of_nat (length ys)] ++ flat_map (fun p => [fst p; snd p]) ys).
 
+Definition hist_sink (n : N) : ob_kind := okind_of (if 5 <=? n then n - 5 else n).
 Definition run_history (a : list N) : list N :=
   let data := blob a in
   let bs := arg a 3 in
   let t := mkTree (blen B3 data) bs in
-  let k := okind_of (arg a 4) in
+  let k := hist_sink (arg a 4) in
   let ob0 := mkOb3 k (root_hash B3 data) t (match k with EmptyOb => [] | _ => zeros B3 (N.to_nat (outboard_size t)) end) in
   let ops := hist_ops (N.to_nat (arg a 7)) (skipn 8 a) in
   snd (fold_left (fun acc op => let '(st, out) := acc in
@@ -668,7 +692,7 @@ Fixpoint delivered_items (items : list (item B3)) (ck cp : N) (pos nl np : N) : 
       if (ck =? 1) && (cp <? e) then []
       else match i with
            | ILeaf _ _ => if (ck =? 2) && (nl =? cp) then [] else i :: delivered_items rest ck cp e (nl + 1) np
-           | IParent _ _ _ => if (ck =? 3) && (np =? cp) then [] else i :: delivered_items rest ck cp e nl (np + 1)
+           | IParent _ _ _ => if ((ck =? 3) || (ck =? 4)) && (np =? cp) then [] else i :: delivered_items rest ck cp e nl (np + 1)
            end
   end.
 Definition add_delivered (D : list N) (items : list (item B3)) : list N :=
@@ -713,7 +737,7 @@ Definition holds_history (a o : list N) : bool :=
   let data := blob a in
   let ops := hist_ops (N.to_nat (arg a 7)) (skipn 8 a) in
   negb (existsb (fun x => x =? PANIC) o) &&
-  holds_hist_steps (S (length ops)) (arg a 6) data (arg a 3) (is_post (okind_of (arg a 4))) ops o [].
+  holds_hist_steps (S (length ops)) (arg a 6) data (arg a 3) (is_post (hist_sink (arg a 4))) ops o [].
 
 (* ---------------- families bao / copy / grow ---------------- *)
 Fixpoint le_bytes (n : nat) (x : N) : bytes :=
